@@ -292,6 +292,13 @@ func (e Engine) Generate(prop, tier string, run int, seed uint64) *kernel.Scenar
 		sc.Steps = genProgram(r, prop, n, own, app, r.Range(3, maxLen), 0.25, 0.3)
 	case "C02":
 		sc.Steps = genC02(r, tier)
+		if sr := kernel.NewRand(kernel.Derive(seed, "slow-app")); sr.Bool(0.04) {
+			// the regular update path as the client walks it: through the
+			// persisting wrapper, with deadlines, against an app that takes time
+			sc.Config["slow_app"] = 1
+			sc.Steps = genSlowApp(sr)
+			return sc
+		}
 	}
 	// a marathon: far more promotions than any history buffer or counter of the
 	// machine is likely to be sized for, before the drawn program goes on
@@ -324,6 +331,10 @@ func (e Engine) Execute(t *testing.T, sc *kernel.Scenario, trace bool) *kernel.R
 	n, own, app := int(sc.Cfg("n", 2)), int(sc.Cfg("own", 0)), int(sc.Cfg("app", 0))
 	if d := int(sc.Cfg("enum_depth", 0)); d > 0 {
 		e.enumerate(sc, res, n, own, app, d, trace)
+		return res
+	}
+	if sc.Cfg("slow_app", 0) == 1 {
+		e.runSlowApp(t, sc, res, trace)
 		return res
 	}
 	wideAssets = int(sc.Cfg("wide_assets", 0))
